@@ -252,6 +252,19 @@ var vC16Mode = 3
 func vSymbolicSessionRules(seid uint64, mode int) PacketForwardingRules {
 	ue := vU32("ue")
 	symFilter := func(tag string) applicationFilter {
+		if vC16Lean != 0 {
+			// three filter shapes with concrete values (arbitrary values: H_C16_builders)
+			switch vChoose(tag+"_filter", 3) {
+			case 0:
+				return applicationFilter{}
+			case 1:
+				return applicationFilter{srcIP: 0x0a010000, srcIPMask: 0xffff0000, dstIP: 0x0a010000, dstIPMask: 0xffff0000,
+					srcPortRange: portRange{80, 90}, dstPortRange: portRange{80, 90}, proto: 6, protoMask: 0xff}
+			default:
+				return applicationFilter{srcIP: 0x08080808, srcIPMask: 0xffffffff, dstIP: 0x08080808, dstIPMask: 0xffffffff,
+					srcPortRange: portRange{53, 53}, dstPortRange: portRange{53, 53}, proto: 17, protoMask: 0xff}
+			}
+		}
 		var f applicationFilter
 		plen := vU8(tag + "_plen")
 		vAssume(plen <= 32)
@@ -291,11 +304,18 @@ func vSymbolicSessionRules(seid uint64, mode int) PacketForwardingRules {
 	fd := far{farID: 2, fseID: seid, applyAction: actD, dstIntf: 0 /* access */, tunnelType: 1, tunnelIP4Src: 0xc6120001,
 		tunnelIP4Dst: gnb, tunnelTEID: gnbTEID, tunnelPort: tunnelGTPUPort}
 	rate := func(n string) uint64 {
+		if vC16Lean != 0 {
+			return 1000000 // rates -> meter configuration is H_C16_meter's subject
+		}
 		r := vU64(n) & 0xffffffffff
 		vAssume(r != 0)
 		return r
 	}
 	mkQ := func(id uint32, lvl QosLevel, tag string) qer {
+		if vC16Lean != 0 {
+			return qer{qerID: id, qosLevel: lvl, qfi: []uint8{5, 9}[vChoose(tag+"_qfi", 2)], ulStatus: vU8(tag+"_ulgate") & 1, dlStatus: vU8(tag+"_dlgate") & 1,
+				ulMbr: rate(""), dlMbr: rate(""), ulGbr: 0, dlGbr: 500000, fseID: seid}
+		}
 		return qer{qerID: id, qosLevel: lvl, qfi: vU8(tag+"_qfi") & 0x3f, ulStatus: vU8(tag+"_ulgate") & 1, dlStatus: vU8(tag+"_dlgate") & 1,
 			ulMbr: rate(tag + "_ulmbr"), dlMbr: rate(tag + "_dlmbr"), ulGbr: vU64(tag+"_ulgbr") & 0xffffffffff, dlGbr: vU64(tag+"_dlgbr") & 0xffffffffff, fseID: seid}
 	}
@@ -318,9 +338,15 @@ func H_C16_session() {
 	vAssume(slice <= 15)
 	tc := vU8("default_tc")
 	vAssume(tc <= 3)
-	mapQFI, mapTC := vU8("map_qfi")&0x3f, vU8("map_tc")
-	vAssume(mapTC <= 3)
-	env := vNewUP4(8, slice, tc, map[uint8]uint8{mapQFI: mapTC})
+	var qmap map[uint8]uint8
+	if vC16Lean != 0 {
+		qmap = map[uint8]uint8{5: uint8(vChoose("map_tc", 4))}
+	} else {
+		mapQFI, mapTC := vU8("map_qfi")&0x3f, vU8("map_tc")
+		vAssume(mapTC <= 3)
+		qmap = map[uint8]uint8{mapQFI: mapTC}
+	}
+	env := vNewUP4(8, slice, tc, qmap)
 	env.srv.logOnly = true
 	rules := vSymbolicSessionRules(0x1111, vC16Mode)
 	vAccReset()
@@ -344,6 +370,11 @@ func H_C16_session() {
 	vAccAssert()
 	vCover("deleted")
 }
+
+// vC16Lean: rates and the QFI mapping concrete (their encodings are the subject
+// of H_C16_meter and H_C16_builders); what stays symbolic end to end is what
+// flows from the PDR/FAR/QER through sendCreate into the table entries.
+var vC16Lean = 1
 
 // H_C16_uplink / H_C16_downlink: as H_C16_session with one direction symbolic.
 func H_C16_uplink() {
